@@ -514,6 +514,66 @@ func c16Property(t *rapid.T, st *Stats) {
 				_ = s.req("DELETE", sessionPath(r.hdr.Get("Location")), nil, nil)
 			}
 		},
+		"hostileDescriptor": func(t *rapid.T) {
+			// path elements inside a manifest BODY: the digest of a config, layer, child or subject descriptor is joined
+			// into a blob path by the store just like a digest from the URL
+			rn := rapid.SampledFrom(names).Draw(t, "repo")
+			other := rapid.SampledFrom(names).Draw(t, "other")
+			if s.reserved[rn] {
+				t.Skip("reserved")
+			}
+			d := rapid.SampledFrom(sortedKeys(e.universe)).Draw(t, "digest")
+			hex := d[strings.Index(d, ":")+1:]
+			up := strings.Repeat("../", strings.Count(rn, "/")+3)
+			hd := strings.NewReplacer("%O", other, "%H", hex, "%U", up, "%S", secret[strings.Index(secret, ":")+1:]).Replace(rapid.SampledFrom([]string{
+				"sha256:0/%U%O/blobs/sha256/%H",
+				"sha256:%U%O/blobs/sha256/%H",
+				"sha256:%H/../../../%U%O/blobs/sha256/%H",
+				"sha256:0/%U../outside/priv/blobs/sha256/%S",
+				"sha256:%U../outside/priv/blobs/sha256/%S",
+				"sha256:%H/../%H",
+				"sha256:../sha256/%H",
+				"%U%O/blobs/sha256:%H",
+			}).Draw(t, "hostileDigest"))
+			good := map[string]any{"mediaType": mtConfig, "digest": d, "size": 2}
+			bad := map[string]any{"mediaType": mtImage, "digest": hd, "size": 2}
+			ct := mtImage
+			var obj map[string]any
+			switch rapid.SampledFrom([]string{"config", "layer", "child", "subject"}).Draw(t, "where") {
+			case "config":
+				bad["mediaType"] = mtConfig
+				obj = map[string]any{"schemaVersion": 2, "mediaType": mtImage, "config": bad, "layers": []any{}}
+			case "layer":
+				bad["mediaType"] = mtLayer
+				obj = map[string]any{"schemaVersion": 2, "mediaType": mtImage, "config": good, "layers": []any{bad}}
+			case "child":
+				ct = mtIndex
+				obj = map[string]any{"schemaVersion": 2, "mediaType": mtIndex, "manifests": []any{bad}}
+			case "subject":
+				obj = map[string]any{"schemaVersion": 2, "mediaType": mtImage, "config": good, "layers": []any{}, "subject": bad}
+			}
+			raw, _ := json.Marshal(obj)
+			tag := "hx"
+			r := s.req("PUT", "/v2/"+rn+"/manifests/"+tag, raw, hdr("Content-Type", ct))
+			e.logf("hostileDescriptor %s %s -> %d", rn, hd, r.code)
+			e.class("hostile-descriptor")
+			e.universe[dig("sha256", raw)] = true
+			if r.code >= 500 {
+				e.abandon("5xx (C15)")
+			}
+			if r.code == 201 {
+				e.repo(rn).blobs[dig("sha256", raw)] = raw // the manifest is deleted again below, its blob stays until a collection
+				// whatever was acknowledged, reading it back (also through the negotiation that follows a child) stays in rn
+				for _, acc := range []string{acceptAll, mtImage, mtIndex} {
+					g := s.req("GET", "/v2/"+rn+"/manifests/"+tag, nil, hdr("Accept", acc))
+					if g.code == 200 && (sameBytes(g.body, secretBytes) || (!sameBytes(g.body, raw) && e.repo(rn).blobs[dig("sha256", g.body)] == nil && e.repo(rn).mans[dig("sha256", g.body)] == nil)) {
+						s.fail("descriptor-digest-leaves-repo", "manifest with descriptor digest %q acknowledged in %s; GET by tag (Accept %s) serves %d bytes that were never pushed to %s", hd, rn, acc, len(g.body), rn)
+					}
+				}
+				_ = s.req("DELETE", "/v2/"+rn+"/manifests/"+tag, nil, nil)
+				_ = s.req("DELETE", "/v2/"+rn+"/manifests/"+dig("sha256", raw), nil, nil)
+			}
+		},
 		"collect": func(t *rapid.T) {
 			rn := rapid.SampledFrom(names).Draw(t, "repo")
 			if s.reserved[rn] {
